@@ -525,7 +525,7 @@ class Report:
         return rc
 
 
-def run_pipelines(rep, pipelines, tier):
+def run_pipelines(rep, pipelines, tier, par=None):
     """Run several module pipelines concurrently (each is subprocess-bound) and merge their reports.
     pipelines: list of (name, callable(tier, subreport))."""
     from concurrent.futures import ThreadPoolExecutor
@@ -536,7 +536,7 @@ def run_pipelines(rep, pipelines, tier):
         sub = Report(rep.pid + "#" + name, tier, rep.level)
         fn(tier, sub)
         return sub
-    with ThreadPoolExecutor(max_workers=len(pipelines)) as ex:
+    with ThreadPoolExecutor(max_workers=par or len(pipelines)) as ex:
         futs = [ex.submit(one, p) for p in pipelines]
         for f in futs:
             subs.append(f.result())
